@@ -8,26 +8,47 @@ sys.path.insert(0, HERE)
 import vals  # noqa: E402
 
 
+def run_one(mod, line):
+    vs = vals.parse_line(line)
+    engine, args = vs[0], vs[1:]
+    try:
+        r = mod.run(engine % 100, args)
+    except RecursionError:
+        r = vals.Err(999)
+    except BaseException as e:  # noqa
+        if isinstance(e, (KeyboardInterrupt, SystemExit)):
+            raise
+        r = vals.classify(e)
+    return engine % 100, vals.dump(r)
+
+
 def main():
     prop, cases, outp = sys.argv[1:4]
     mod = importlib.import_module('impl.' + prop)
-    with open(cases) as f, open(outp, 'w') as out:
-        for line in f:
-            line = line.strip()
-            if not line:
-                out.write('\n')
-                continue
-            vs = vals.parse_line(line)
-            engine, args = vs[0], vs[1:]
-            try:
-                r = mod.run(engine % 100, args)
-            except RecursionError as e:
-                r = vals.Err(999)
-            except BaseException as e:  # noqa
-                if isinstance(e, (KeyboardInterrupt, SystemExit)):
-                    raise
-                r = vals.classify(e)
-            out.write(vals.dump(r) + '\n')
+    lines = [l.strip() for l in open(cases)]
+    outs, ops = [], []
+    for line in lines:
+        if not line:
+            outs.append('')
+            ops.append(None)
+            continue
+        op, o = run_one(mod, line)
+        outs.append(o)
+        ops.append(op)
+    # Every observation is meant to be a function of its case alone.  A sample of the cases is run a
+    # second time at the end, in reverse order; an answer that differs from the first one means that
+    # something leaked from one call into another (a cache keyed too coarsely, an object shared
+    # between calls, process-wide state left behind): the observation is replaced by the marker e998,
+    # which no MODEL ever produces.  Ops that sign with OpenSSL's random nonce are exempt.
+    nondet = set(getattr(mod, 'NONDETERMINISTIC_OPS', ()))
+    idx = [i for i, l in enumerate(lines) if l and ops[i] not in nondet and len(l) < 20000]
+    step = max(1, len(idx) // 400)
+    for i in reversed(idx[::step]):
+        _, again = run_one(mod, lines[i])
+        if again != outs[i]:
+            outs[i] = vals.dump(vals.Err(998))
+    with open(outp, 'w') as out:
+        out.write('\n'.join(outs) + '\n')
 
 
 if __name__ == '__main__':
